@@ -36,7 +36,7 @@ from .. import harness, loader, slicer, sx
 MOD = "vf.props.c07"
 
 
-class _NP:
+class _NP(sx.Conversions):
     """numpy for _kmeans_constraint_ under SX"""
 
     def __init__(self, rnd):
